@@ -437,6 +437,14 @@ func genPhase(w *Worker, id string) {
 			}
 		}
 		corpus = append(corpus, mixed...)
+		// `$1` inside a string literal of the action (every generator rewrites it there, too: all alike or none)
+		var instr []*genCase
+		for _, c := range corpus {
+			if strings.HasPrefix(c.Origin, "family:") && c.Tags == nil && c.Shape == gen.UseAll && !c.Renumber && !c.Nested && !c.Lazy {
+				instr = append(instr, &genCase{Origin: c.Origin + " [$1 inside a string literal]", Spec: c.Spec, Shape: gen.InString})
+			}
+		}
+		corpus = append(corpus, instr...)
 	}
 	if id == "C07" || id == "C17" || id == "C08" || id == "C01" || id == "C06" {
 		// the family grammars once more with a nested parse inside every action: what the outer
@@ -834,7 +842,7 @@ func genJudge(w *Worker, id string, o *obs, variants []string) {
 					}
 					continue
 				}
-				if r.Class == "accept" && o.d.Shape == gen.PlainCopy {
+				if r.Class == "accept" && (o.d.Shape == gen.PlainCopy || o.d.Shape == gen.Bare) {
 					// these actions do not record reductions (so that many rules share one action text):
 					// the expected value comes from the model's derivation (validated by C01)
 					if p.Class == "accept" && (p.N != r.N || p.S != r.S) {
